@@ -26,6 +26,7 @@ PATHS = [
     (['EVN'], 'EVN_2', 'TS_1', None),
     (['NK1'], 'NK1_4', 'XAD_1', 'SAD_1'),
     (['ADT_A01_PROCEDURE', 'PR1'], 'PR1_3', 'CE_2', None),
+    (['ZIN'], 'ZIN_5', None, None),            # open-ended segment: any field index exists
 ]
 NPATH = len(PATHS)
 NSPELL = 4
@@ -34,15 +35,14 @@ NTERM = len(TERMS)
 
 
 def longname(kind, name):
-    if kind == 'field':
-        return LIB.FIELDS[name][3]
-    return LIB.DATATYPES[name][3]
+    tab = LIB.FIELDS if kind == 'field' else LIB.DATATYPES
+    return tab[name][3] if name in tab else None
 
 
 def steps_for(target, pi, depth):
     """list of (kind, HL7 name) steps from the target element"""
     grp, fld, cmp_, sub = PATHS[pi]
-    full = [('seg', g) for g in grp] + [('field', fld), ('comp', cmp_)] + ([('sub', sub)] if sub else [])
+    full = [('seg', g) for g in grp] + [('field', fld)] + ([('comp', cmp_)] if cmp_ else []) + ([('sub', sub)] if sub else [])
     if target == 1:
         full = full[len(grp):]
     elif target == 2:
@@ -67,7 +67,7 @@ def spell(step, spell_kind, field_name, comp_no):
     return name.lower()
 
 
-def make_root(target, pi, level):
+def make_root(target, pi, level, prefill=True):
     grp, fld, cmp_, sub = PATHS[pi]
     if target == 0:
         m = Message('ADT_A01', version=V, validation_level=level)
@@ -78,7 +78,10 @@ def make_root(target, pi, level):
         m.pv1.pv1_2 = 'I'
         return m
     if target == 1:
-        return Segment(grp[-1], version=V, validation_level=level)
+        seg = Segment(grp[-1], version=V, validation_level=level)
+        if grp[-1] == 'ZIN' and prefill:
+            seg.zin_1 = 'a'
+        return seg
     return Field(fld, version=V, validation_level=level)
 
 
@@ -89,7 +92,7 @@ def tree(el):
 
 
 def snapshot(root):
-    return (root.to_er7(), tree(root), _report(root))
+    return (root.to_er7(), tree(root), _report(root), root.to_er7(trailing_children=True))
 
 
 def navigate(root, steps, spell_kind):
@@ -162,7 +165,7 @@ def expected_after_write(target, pi, depth):
     steps = steps_for(target, pi, depth)
     kinds = [s[0] for s in steps]
     fno = T.child_number(fld)
-    cno = T.child_number(cmp_)
+    cno = T.child_number(cmp_) if cmp_ else None
     sno = T.child_number(sub) if sub else None
     # text of the field
     if 'sub' in kinds:
@@ -180,7 +183,7 @@ def expected_after_write(target, pi, depth):
 
 def write_once(target, pi, depth, spell_kind, level, trace=None):
     reset_defaults()
-    root = make_root(target, pi, level)
+    root = make_root(target, pi, level, prefill=False)
     steps = steps_for(target, pi, depth)
     want = expected_after_write(target, pi, depth)
     if want is None:
